@@ -1170,7 +1170,9 @@ caption_command(vbi_decoder *vbi, struct caption *cc,
 
 			render(ch->pg + (ch->hidden ^ 1), -1 /* ! */);
 
-			erase_memory(cc, ch, ch->hidden); // yes?
+			/* 47 CFR 15.119 (f)(2): The memories are swapped. The
+			   caption displayed until now stays in non-displayed
+			   memory until ENM or an EDM before the next EOC. */
 
 			/*
 			 *  A Preamble Address Code should follow,
